@@ -23,11 +23,11 @@ import (
 // followed through phis (SSA-lifted locals) and through cells (named results captured by closures).
 
 type flagEvent struct {
-	in      ssa.Instruction
-	seed    ssa.Value // flag returned by the callee, nil for a plain map update
-	cell    ssa.Value // for closure events: the captured cell already holds the right value after the call
-	what    string
-	pseudo  bool // the event stands before its instruction (first instruction of a guard block)
+	in     ssa.Instruction
+	seed   ssa.Value // flag returned by the callee, nil for a plain map update
+	cell   ssa.Value // for closure events: the captured cell already holds the right value after the call
+	what   string
+	pseudo bool // the event stands before its instruction (first instruction of a guard block)
 }
 
 func isPropMap(t types.Type) bool {
@@ -47,11 +47,11 @@ func isPropMap(t types.Type) bool {
 	return ok && e.Kind() == types.Byte
 }
 
-
 type flagDisc struct {
 	w        *World
 	writes   map[*ssa.Function]int // 0 unknown, 1 busy, 2 no, 3 yes : function (transitively) updates a property map it was given
 	closCell map[*ssa.Function]int // closure -> index of the captured bool cell it settles (-1 none)
+	infBusy  map[*ssa.If]bool
 }
 
 // mapWriter: f updates a property map passed to it (or captured), directly or through callees.
@@ -138,7 +138,7 @@ func (d *flagDisc) events(f *ssa.Function) []flagEvent {
 							ev.cell = mc.Bindings[i]
 						}
 					}
-				} else {
+				} else if d.returnsFlag(g) {
 					// flag result of the callee
 					res := g.Signature.Results()
 					for i := 0; i < res.Len(); i++ {
@@ -226,6 +226,9 @@ func instrReaches(a, b ssa.Instruction) bool {
 
 // errorReturn: the return hands back an error that a dominating test has found non-nil.
 func errorReturn(r *ssa.Return) bool {
+	if underAnyErrorTest(r.Block()) {
+		return true
+	}
 	for _, v := range r.Results {
 		if !isErrorType(v.Type()) {
 			continue
@@ -239,7 +242,6 @@ func errorReturn(r *ssa.Return) bool {
 	}
 	return false
 }
-
 
 // underNonNilTestLoose is underNonNilTest where two loads of the same cell count as the same value.
 func underNonNilTestLoose(v ssa.Value, b *ssa.BasicBlock) bool {
@@ -304,6 +306,9 @@ func (d *flagDisc) trueVia(v ssa.Value, ev flagEvent, at ssa.Instruction, busy m
 		for i, p := range q.Preds {
 			if !(p == eb || reaches(eb, p)) {
 				continue
+			}
+			if d.infeasibleAfter(ev, p, busy) {
+				continue // only reached when a flag that is true after the event tests false
 			}
 			last := p.Instrs[len(p.Instrs)-1]
 			if ok, why := d.trueVia(x.Edges[i], ev, last, busy); !ok {
@@ -418,7 +423,9 @@ func (d *flagDisc) cellTrueAt(cell ssa.Value, ev flagEvent, at ssa.Instruction, 
 						}
 						g := mc.Fn.(*ssa.Function)
 						if storesThroughFreeVar(g, bi) {
-							if d.closureSettles(g) == bi && state == unset {
+							if onlyRaises(g, bi) {
+								// the closure only ever stores true: the flag cannot go down
+							} else if d.closureSettles(g) == bi && state == unset {
 								state = set
 							} else {
 								return state, fmt.Sprintf("the flag is overwritten inside %s called at %s", funcName(g), d.w.InstrPos(x))
@@ -532,10 +539,10 @@ func (d *flagDisc) flagCandidate(v ssa.Value) bool {
 		return true
 	case *ssa.Extract:
 		if call, ok := x.Tuple.(*ssa.Call); ok {
-			return d.callPassesMap(call) != nil
+			return d.returnsFlag(d.callPassesMap(call))
 		}
 	case *ssa.Call:
-		return d.callPassesMap(x) != nil
+		return d.returnsFlag(d.callPassesMap(x))
 	case *ssa.UnOp:
 		if x.Op == token.MUL {
 			switch x.X.(type) {
@@ -553,7 +560,7 @@ func (d *flagDisc) flagCandidate(v ssa.Value) bool {
 // checkFlagDiscipline emits one obligation per function of the package that puts entries into a property map and
 // reads a flag afterwards. only (optional) restricts the functions judged.
 func checkFlagDiscipline(w *World, c *Check, rule string, only func(f *ssa.Function, evs []flagEvent) bool) {
-	d := &flagDisc{w: w, writes: map[*ssa.Function]int{}, closCell: map[*ssa.Function]int{}}
+	d := &flagDisc{w: w, writes: map[*ssa.Function]int{}, closCell: map[*ssa.Function]int{}, infBusy: map[*ssa.If]bool{}}
 	nEv, nUse, nFn := 0, 0, 0
 	funcs := append([]*ssa.Function{}, w.Funcs...)
 	sort.Slice(funcs, func(i, j int) bool { return funcName(funcs[i]) < funcName(funcs[j]) })
@@ -574,7 +581,8 @@ func checkFlagDiscipline(w *World, c *Check, rule string, only func(f *ssa.Funct
 		for _, b := range f.Blocks {
 			switch x := b.Instrs[len(b.Instrs)-1].(type) {
 			case *ssa.Return:
-				if errorReturn(x) {
+				if errorReturn(x) || f.Parent() != nil {
+					// a closure's own bool result is an ok/failed answer; its flag is the captured one
 					continue
 				}
 				for _, r := range x.Results {
@@ -614,6 +622,9 @@ func checkFlagDiscipline(w *World, c *Check, rule string, only func(f *ssa.Funct
 			}
 			for _, u := range uses {
 				if !instrReaches(ev.in, u.at) {
+					continue
+				}
+				if d.infeasibleAfter(ev, u.at.Block(), map[ssa.Value]bool{}) {
 					continue
 				}
 				// the flag an event call returns is not a use of that same event when branched on directly
@@ -735,4 +746,123 @@ func guardBlockFor(ev flagEvent) ssa.Instruction {
 		}
 	}
 	return found
+}
+
+// infeasibleAfter: block b can only be entered through the false outcome of a branch on a flag value that is true on
+// every path from the event to that branch (hasData = hasData || x: the right operand is evaluated only when the
+// flag is still false, which it cannot be once the event has raised it).
+func (d *flagDisc) infeasibleAfter(ev flagEvent, b *ssa.BasicBlock, busy map[ssa.Value]bool) bool {
+	for x := b; x != nil; x = x.Idom() {
+		id := x.Idom()
+		if id == nil {
+			break
+		}
+		iff, ok := id.Instrs[len(id.Instrs)-1].(*ssa.If)
+		if !ok {
+			continue
+		}
+		side := -1
+		for si, s := range id.Succs {
+			if len(s.Preds) == 1 && (s == b || s.Dominates(b)) {
+				side = si
+			}
+		}
+		if side < 0 {
+			continue
+		}
+		cond := iff.Cond
+		needTrue := side == 0
+		if n, ok := cond.(*ssa.UnOp); ok && n.Op == token.NOT {
+			cond = n.X
+			needTrue = !needTrue
+		}
+		if needTrue || !d.flagCandidate(cond) || d.infBusy[iff] {
+			continue
+		}
+		if !instrReaches(ev.in, iff) {
+			continue
+		}
+		if _, isConst := cond.(*ssa.Const); isConst {
+			continue
+		}
+		d.infBusy[iff] = true
+		ok2, _ := d.trueVia(cond, ev, iff, busy)
+		delete(d.infBusy, iff)
+		if ok2 {
+			return true
+		}
+	}
+	return false
+}
+
+// underAnyErrorTest: block b is only reached through the not-nil outcome of a test of some error value (an error path,
+// whatever the function then returns).
+func underAnyErrorTest(b *ssa.BasicBlock) bool {
+	for d := b; d != nil; d = d.Idom() {
+		id := d.Idom()
+		if id == nil {
+			break
+		}
+		iff, ok := id.Instrs[len(id.Instrs)-1].(*ssa.If)
+		if !ok {
+			continue
+		}
+		bo, ok := iff.Cond.(*ssa.BinOp)
+		if !ok || (bo.Op != token.NEQ && bo.Op != token.EQL) {
+			continue
+		}
+		var other ssa.Value
+		if isNilConst(bo.Y) {
+			other = bo.X
+		} else if isNilConst(bo.X) {
+			other = bo.Y
+		}
+		if other == nil || !isErrorType(other.Type()) {
+			continue
+		}
+		side := id.Succs[0]
+		if bo.Op == token.EQL {
+			side = id.Succs[1]
+		}
+		if len(side.Preds) == 1 && (side == b || side.Dominates(b)) {
+			return true
+		}
+	}
+	return false
+}
+
+// returnsFlag: g hands back (…bool…, error): the bool is its "wrote something" flag. A lone bool result is usually an
+// ok/failed answer; it counts as a flag only if it is true on every non-error return reachable from g's own events.
+func (d *flagDisc) returnsFlag(g *ssa.Function) bool {
+	if g == nil || g.Parent() != nil {
+		return false
+	}
+	res := g.Signature.Results()
+	hasBool, hasErr := false, false
+	for i := 0; i < res.Len(); i++ {
+		if isBoolType(res.At(i).Type()) {
+			hasBool = true
+		}
+		if isErrorType(res.At(i).Type()) {
+			hasErr = true
+		}
+	}
+	return hasBool && hasErr
+}
+
+// onlyRaises: every store the closure makes through its idx-th captured variable writes the constant true.
+func onlyRaises(g *ssa.Function, idx int) bool {
+	if idx >= len(g.FreeVars) {
+		return false
+	}
+	fv := g.FreeVars[idx]
+	for _, r := range *fv.Referrers() {
+		if st, ok := r.(*ssa.Store); ok && st.Addr == ssa.Value(fv) {
+			k, isC := st.Val.(*ssa.Const)
+			if !isC || k.Value == nil || k.Value.ExactString() != "true" {
+				return false
+			}
+		}
+	}
+	return true
 }
